@@ -108,6 +108,25 @@ CHECKS = {
         note='hypothesis: valid pixels of every band lie inside the bounding window of band 1 (true for fuse output). D6 fixed (df78f2a).',
         technique='Coq proof (fold invariants for min/max, sum algebra) + in-Coq correspondence with ParamStats on real files',
         design='5/C12'),
+    'C13': dict(
+        text='Theorems (Coq): np.round modelled on rationals is a nearest integer with ties to even; every valid pixel of an integer output '
+             'equals the float32 result rounded and SATURATED to the type range (never wrapped; +-inf to the range ends); invalid pixels '
+             'carry nodata, or are flagged in the internal mask written with band 1 when nodata is null; a valid pixel reads back invalid '
+             'exactly when its converted value equals nodata. Tie: Enc.Dtype evaluated in Coq on edge values (x.5 ties, +-1e10, +-3.4e38, '
+             '+-inf, NaN) through _convert_array_dtype and through write + read-back for 7 dtypes x nodata; paired real fusions float32 vs '
+             'integer/float64 outputs x GTiff tiled/striped/deflate/lzw/interleave and PNG: exact integer equality.',
+        note='partial: lossless codecs trusted (H_codec).',
+        technique='Coq proof (Qfloor-based rint, clamp) + in-Coq correspondence + paired-run exact comparison',
+        design='5/C13'),
+    'C14': dict(
+        text='Theorems (Coq): the band index map (i, k) -> k*n + i + 1 is a bijection onto 1..3n with gain / offset / R2 of band i at i, n+i, '
+             '2n+i; the description and the validator suffix of that band name parameter k; parameters exist exactly on the joint mask; '
+             'corrected = gain * source + offset. Tie: layout, labels, validator acceptance and the band holding each parameter '
+             '(identified by content through distinct per-band reference factors) checked in Coq on real multi-band fusions with permuted '
+             'selections; parameter mask = joint mask; on the source grid corrected == gain*src + offset bit for bit.',
+        note='degenerate gain-offset windows (OLS denominator 0: NaN parameters) are outside C01\'s hypotheses and excluded from the mask equality.',
+        technique='Coq proof (integer arithmetic, lia/nia) + in-Coq correspondence on real parameter images',
+        design='5/C14'),
     'C15': dict(
         text='Theorems (Coq, every band count, selection, metadata; greedy matcher generic in the distance type): equal lengths; matched '
              'source bands are a subsequence of the selection (all of it unless forced); reference bands come from the reference selection and '
@@ -139,6 +158,16 @@ CHECKS = {
              'array is given to the model as an integer origin.',
         technique='Coq proof (lia, induction over write sequences) + in-Coq correspondence with real file I/O',
         design='5/C20'),
+    'C19': dict(
+        text='Finite theorems by computation on the click surface REGENERATED from the imported module on every run: every fuse / compare / '
+             'stats option is a used named callback argument or a key of exactly one API configuration dictionary, every API key is an '
+             'option, dictionaries disjoint, kernel is two integers HEIGHT WIDTH passed unchanged; proved for all keys and sources: command '
+             'line > configuration file > default, unknown keys rejected, _update_existing_keys keeps exactly the API keys. Tie: regenerated '
+             '+ merge model evaluated in Coq against the effective values of real CliRunner invocations; CLI vs API differential on random '
+             'option combinations (pixels, masks, dtype/nodata, FUSE_* tags, names, JSON reports).',
+        note='click parsing trusted. D11 (--nodata null overridden by the configuration file) fixed in 6bcd58d.',
+        technique='Coq finite proofs over a regenerated CLI surface + merge model + CLI/API differential',
+        design='5/C19'),
 }
 
 NOT_YET = 'check not built yet in this revision (planned: see DESIGN.md section 5)'
